@@ -13,6 +13,7 @@ __all__ = (
     "StaticUseDep",
     "SubSlotDep",
     "UseDepDefault",
+    "VersionGlobMatch",
     "VersionMatch",
 )
 
@@ -162,6 +163,60 @@ class VersionMatch(packages.PackageRestriction):
 
     def match(self, pkg, *args, **kwds):
         return self.restriction.match(pkg)
+
+
+def version_glob_match(glob: str, fullver: str) -> bool:
+    """Check if the version of a ``=cat/pkg-ver*`` atom covers a package version.
+
+    The written version has to be a prefix of the package's version that ends
+    on a version component boundary: ``1*`` matches ``1``, ``1.2``, ``1_p1``
+    and ``1-r3``, but neither ``10`` nor ``1-r3`` vs ``1-r30``.
+    """
+    if not fullver.startswith(glob):
+        return False
+    following = fullver[len(glob) : len(glob) + 1]
+    return following in ("", ".", "_", "-") or glob[-1].isdigit() != following.isdigit()
+
+
+class _VersionGlobMatch(restriction.base):
+    """value restriction implementing the ``=*`` operator of an atom"""
+
+    __slots__ = ("glob", "negate")
+
+    type = restriction.value_type
+    attr = "fullver"
+
+    def __init__(self, glob: str, negate: bool = False):
+        self.glob = glob
+        self.negate = negate
+
+    def match(self, value, *args, **kwargs) -> bool:
+        return version_glob_match(self.glob, str(value)) != self.negate
+
+    def __eq__(self, other) -> bool:
+        if self is other:
+            return True
+        return (
+            isinstance(other, _VersionGlobMatch)
+            and self.glob == other.glob
+            and self.negate == other.negate
+        )
+
+    def __hash__(self):
+        return hash((_VersionGlobMatch, self.glob, self.negate))
+
+    def __str__(self):
+        return f"ver {'not ' if self.negate else ''}= {self.glob}*"
+
+    def __repr__(self):
+        return f"<{self.__class__.__name__} {self.glob}* negate={self.negate} @{id(self):#8x}>"
+
+
+class VersionGlobMatch(packages.PackageRestriction):
+    __slots__ = ()
+
+    def __init__(self, fullver: str, negate: bool = False):
+        super().__init__("fullver", _VersionGlobMatch(fullver), negate=negate)
 
 
 class SlotDep(packages.PackageRestriction):
